@@ -323,6 +323,14 @@ def check(chk):
     st = repo.func(LI, "LightPlatformDirectFade.stop")
     ok = any(call_attr(c) == "cancel" for c in st.calls())
     chk.ob("PAIR-23", "stop() cancels the fade task", ok, st.where(), construct=st.ident, text="stop cancels")
+    # the handle of the running fade belongs to set_fade: the fade coroutine itself never writes it (a cancelled fade finishes *after* its
+    # successor was stored: whatever it writes then is the successor's handle, which can no longer be cancelled)
+    dfc = repo.cls(LI, "LightPlatformDirectFade")
+    writers = sorted({m.name for m in dfc.methods.values() for x in walk_local(m.node)
+                      if isinstance(x, (ast.Assign, ast.AugAssign, ast.Delete)) and any(src(t) == "self.task" for t in (x.targets if not isinstance(x, ast.AugAssign) else [x.target]))})
+    chk.ob("PAIR-23", "the fade task handle is written only where fades are started / replaced (set_fade, __init__), never by the fade coroutine",
+           set(writers) <= {"__init__", "set_fade"} and "set_fade" in writers, dfc.methods["_fade"].where(), detail=str(writers),
+           construct=LI + "::LightPlatformDirectFade.task", text="fade task written by " + ",".join(w for w in writers if w not in ("__init__", "set_fade")))
 
     _stack_reads(chk, repo)
     _interpolation(chk, repo)
@@ -814,6 +822,7 @@ def battery():
         M("twin: fade-out timer named with an f-string", LT, "name=\"remove_fade_{}\".format(key))", "name=f\"remove_fade_{key}\")", None),
         M("same-target shortcut compares with the remembered start colour", LT, "target_color == self._last_fade_target[2] and", "target_color == self._last_fade_target[0] and", "SUPP-1"),
         M("fade-ended test reads the remembered start time", LT, "(self._last_fade_target[3] < 0 or self._last_fade_target[3] < self.machine.clock.get_time())", "(self._last_fade_target[1] < 0 or self._last_fade_target[1] < self.machine.clock.get_time())", "SUPP-1"),
+        M("finished fade wipes the task handle", LI, "            if target_fade_ms <= max_fade_ms:\n                return\n            await asyncio.sleep(interval)", "            if target_fade_ms <= max_fade_ms:\n                self.task = None\n                return\n            await asyncio.sleep(interval)", "PAIR-23"),
     ]
 
 
